@@ -41,6 +41,7 @@ type c01Op struct {
 	Variant  int              `json:"variant,omitempty"`
 	Weight   map[string]int64 `json:"weight,omitempty"`
 	NoObs    bool             `json:"-"`
+	Scale    bool             `json:"scale,omitempty"`
 	Ops      []c01Op          `json:"ops,omitempty"`
 }
 
@@ -372,7 +373,11 @@ func c01Run(rec *vu.Recorder, script []c01Op) { c01RunOpt(rec, script, false) }
 
 func c01RunOpt(rec *vu.Recorder, script []c01Op, noObs bool) {
 	w := &c01World{gqm: c01NewManager(), quotas: map[string]*v1alpha1.ElasticQuota{}, pods: map[string]*c01PodRec{}, noObs: noObs}
-	rec.Reset(nil)
+	scale := len(script) > 0 && script[0].Op == "reset" && script[0].Scale
+	if scale {
+		w.gqm.setScaleMinQuotaEnabled(true)
+	}
+	rec.Reset(vu.Ev{"scale": scale})
 	for _, o := range script {
 		if o.Op == "reset" {
 			continue
